@@ -7,7 +7,7 @@ from ..selftest import Mutant
 
 ID = "C41"
 TECHNIQUE = "output-dependence analysis: every attested field must flow into the returned line list (K5), sorted() on unordered sources, single derivation of the hash forms (ast)"
-FLOOR = 20
+FLOOR = 26
 TF = "breezy/bzr/testament.py"
 EXPLANATION = """
 K5 (sensitivity needs dependence): in Testament.as_text_lines every attested revision field — revision_id, committer,
